@@ -11,7 +11,7 @@ CONSTANT Tier
 P(k) == Dec(k * SCALE, "plain")
 R(n, sp) == Dec(n * 100, sp)            \* a rate given in units of 0.0001
 
-Cfg0 == InstMsg("ats", "base", <<>>, <<"q1">>, <<"appr1">>, <<"exec1", "exec2">>,
+Cfg0 == InstMsg("ats", "base", <<>>, <<"q1">>, <<"appr1", "appr2">>, <<"exec1", "exec2">>,
                 FeeInfo("askfee1", R(5000, "plain")), FeeInfo("bidfee1", R(2500, "plain")), <<>>, <<>>, 0, 1)
 Cfg1 == InstMsg("ats", "base", <<>>, <<"q1">>, <<"appr1">>, <<"exec1", "exec2">>, NoFeeInfo, NoFeeInfo, <<"kyc">>, <<"kyc">>, 0, 1)
 Cfgs == {Cfg0, Cfg1}
@@ -34,7 +34,8 @@ OtherReqs == {RReverse("cancel_ask", "seller1", NoFunds, "a1", NoSize), RReverse
 \* ---- the modify family: one field (or one pair) at a time, plus a few combinations
 Nothing(who) == ModifyNothing(who)
 SeqVariants(kind) ==
-  IF kind = "approvers" THEN {Some(<<"appr1", "appr2">>), Some(<<"appr2">>), Some(<<>>), Some(<<"BAD">>)}
+  IF kind = "approvers" THEN {Some(<<"appr1", "appr2", "multi1">>), Some(<<"appr2">>), Some(<<>>), Some(<<"BAD">>),
+                              Some(<<"appr1", "appr1", "multi1">>)}     \* a duplicate entry while another approver is dropped
                              \cup (IF Tier = "quick" THEN {} ELSE {Some(<<"appr1">>), Some(<<"appr2", "appr1">>)})
   ELSE IF kind = "executors" THEN {Some(<<"exec1">>), Some(<<>>), Some(<<"x">>)}
                              \cup (IF Tier = "quick" THEN {} ELSE {Some(<<"exec1", "exec2">>), Some(<<"exec2", "exec1">>)})
@@ -48,13 +49,14 @@ PairVariants(n, acct, acct2) ==
 AskPairs == IF Tier = "quick"
             THEN {<<Some(R(5000, "t0")), Some("askfee2")>>, <<Some(R(1000, "plain")), Some("askfee1")>>,
                   <<Some(R(5000, "t0")), Some("")>>, <<Some(R(2500, "plain")), Some("askfee1")>>,
+                  <<Some(Dec(500090, "plain")), Some("askfee1")>>,        \* 0.50009: differs from 0.5 in the fifth decimal
                   <<Some(R(0, "bad_empty")), Some("")>>, <<Some(R(5000, "plain")), NoStr>>, <<NoDec, Some("askfee1")>>,
                   <<Some(R(0, "bad_word")), Some("askfee1")>>, <<Some(R(5000, "plain")), Some("BAD")>>}
             ELSE PairVariants(5000, "askfee1", "askfee2")
 BidPairs == IF Tier = "quick"
             THEN {<<Some(R(2500, "t0")), Some("bidfee2")>>, <<Some(R(0, "bad_empty")), Some("")>>,
                   <<Some(R(1000, "plain")), Some("bidfee1")>>, <<Some(R(5000, "plain")), Some("bidfee1")>>,
-                  <<Some(R(2500, "plain")), Some("")>>}
+                  <<Some(R(2500, "plain")), Some("")>>, <<Some(Dec(250009, "plain")), Some("bidfee1")>>}
             ELSE PairVariants(2500, "bidfee1", "bidfee2")
 
 ModifyReqs ==
@@ -66,10 +68,11 @@ ModifyReqs ==
   \cup {[Nothing(who) EXCEPT !.bidattrs = v] : v \in SeqVariants("attrs")}
   \cup {[Nothing(who) EXCEPT !.askfee_rate = pr[1], !.askfee_acct = pr[2]] : pr \in AskPairs}
   \cup {[Nothing(who) EXCEPT !.bidfee_rate = pr[1], !.bidfee_acct = pr[2]] : pr \in BidPairs}
-  \cup {[Nothing(who) EXCEPT !.approvers = Some(<<"appr1", "appr2">>), !.askattrs = Some(<<"kyc">>),
+  \cup {[Nothing(who) EXCEPT !.approvers = Some(<<"appr1", "appr2", "multi2">>), !.askattrs = Some(<<"kyc">>),
                              !.bidfee_rate = Some(R(2500, "t0")), !.bidfee_acct = Some("bidfee2")]}
   \cup {[Nothing(who) EXCEPT !.funds = Coins1("q1", 1)]}
-  : who \in IF Tier = "quick" THEN {"exec1", "seller1"} ELSE {"exec1", "exec2", "seller1"}}
+  : who \in IF Tier = "quick" THEN {"exec1"} ELSE {"exec1", "exec2", "seller1"}}
+  \cup {Nothing("seller1"), [Nothing("seller1") EXCEPT !.approvers = Some(<<"appr1", "appr2", "multi1">>)]}
 
 DoInstantiate == ~st.cfg.set /\ \E m \in Cfgs : Step(RInstantiate(m))
 DoCreateAsk   == st.cfg.set /\ \E r \in AskReqs : Step(r)
